@@ -396,7 +396,7 @@ def conc_case(rng):
 
 
 def gen_cases(rng, tier, budget):
-    n = budget or (1500 if tier == "quick" else 22000)
+    n = budget or (1300 if tier == "quick" else 22000)
     cases = boundary_cases()
     for _ in range(max(20, n // 5)):
         cases.append(conc_case(rng))
